@@ -1,5 +1,5 @@
 from collections.abc import Callable
-from itertools import chain, combinations, starmap
+from itertools import chain, product, starmap
 from typing import Any, TypeGuard
 
 from mypy.nodes import (
@@ -197,9 +197,13 @@ def is_equivalent(lhs: Node | None, rhs: Node | None) -> bool:
 
 
 def get_common_expr_positions(*exprs: Expression) -> tuple[int, int] | None:
-    for lhs, rhs in combinations(exprs, 2):
+    # The first half of `exprs` are the operands of one comparison, the second half the operands
+    # of the other one: an expression is only "common" if it appears in both comparisons.
+    half = len(exprs) // 2
+
+    for (i, lhs), (j, rhs) in product(enumerate(exprs[:half]), enumerate(exprs[half:], half)):
         if is_equivalent(lhs, rhs):
-            return exprs.index(lhs), exprs.index(rhs)
+            return i, j
 
     return None
 
